@@ -77,13 +77,13 @@ pub fn c02(r: &mut Rng, sz: &Sizes, out: &mut Vec<String>) {
     }
     // (shape, text) pairs: the shape is inferred from a related history
     for _ in 0..sz.docs {
-        let h = rand_history(r, &KEYS[..7]);
+        let h = rand_history(r, &DKEYS[..12]);
         let srcs: Vec<String> = h.iter().map(|d| d.render(0)).collect();
         let Ok(s) = JsonShape::from_sources(&srcs) else { continue };
         let p = [s.clone()];
         let s2 = if r.chance(1, 2) { s } else { mutate(r, &s, &p) };
         let base = r.pick(&h).clone();
-        let d = if r.chance(1, 2) { base } else { tweak(r, &base, &KEYS[..7]) };
+        let d = if r.chance(1, 2) { base } else { tweak(r, &base, &DKEYS[..12]) };
         let style = r.below(4);
         out.push(format!("superset\t{}\t{}", sx(&s2), hex_doc(&d, style)));
         out.push(format!("supersetchk\t{}\t{}", sx(&s2), hex_doc(&d, style)));
@@ -104,7 +104,7 @@ fn docs(r: &mut Rng, sz: &Sizes) -> Vec<J> {
     ];
     for i in 0..sz.docs {
         let depth = i % 5;
-        out.push(rand_doc(r, depth, &KEYS[..8]));
+        out.push(rand_doc(r, depth, DKEYS));
     }
     out
 }
@@ -127,7 +127,7 @@ pub fn merger_ops(r: &mut Rng, sz: &Sizes, out: &mut Vec<String>) {
 
 pub fn history_ops(r: &mut Rng, sz: &Sizes, out: &mut Vec<String>) {
     for _ in 0..sz.histories {
-        let h = rand_history(r, &KEYS[..8]);
+        let h = rand_history(r, DKEYS);
         let mut line = "sourcesdoc".to_string();
         for d in &h {
             line.push('\t');
@@ -161,7 +161,7 @@ pub fn c01(r: &mut Rng, sz: &Sizes, out: &mut Vec<String>) {
         out.push(format!("sourcesdoc\t{}\t!ok *", hexes.join("\t")));
     }
     for _ in 0..sz.histories {
-        let h = rand_history(r, &KEYS[..8]);
+        let h = rand_history(r, DKEYS);
         let hexes: Vec<String> = h.iter().map(|d| hex_doc(d, r.below(4))).collect();
         for n in 1..=hexes.len() {
             out.push(format!("sourcesdoc\t{}\t!ok *", hexes[..n].join("\t")));
@@ -197,10 +197,17 @@ pub fn c08(r: &mut Rng, sz: &Sizes, out: &mut Vec<String>) {
         J::Arr(vec![J::Null, J::Num("1".into())]),
         J::Obj(vec![("a".into(), J::Num("1".into()))]),
     ];
-    for i in 0..sz.docs / 4 {
-        pool.push(rand_doc(r, i % 4, &KEYS[..7]));
+    // optional members of every kind (an array of objects one of which lacks the key) against the plain form
+    for t in [
+        "[{\"a\":[1]}]", "[{\"a\":[1,\"x\"]},{}]", "[{\"a\":[1,\"x\"]}]", "[{\"a\":1},{}]", "[{\"a\":{\"b\":1}},{}]",
+        "[{\"a\":[1]},{}]", "[{\"a\":{\"b\":1}}]", "[{\"a\":\"s\"}]", "[{\"a\":[[1],[2,\"x\"]]},{}]",
+    ] {
+        pool.push(parse_j(t));
     }
-    let fixed = 11;
+    let fixed = pool.len();
+    for i in 0..sz.docs / 4 {
+        pool.push(rand_doc(r, i % 4, &DKEYS[..12]));
+    }
     for i in 0..fixed {
         for j in 0..fixed {
             out.push(format!("p_c08\t{}\t{}\t!ok *", hex_doc(&pool[i], 0), hex_doc(&pool[j], 0)));
@@ -208,7 +215,7 @@ pub fn c08(r: &mut Rng, sz: &Sizes, out: &mut Vec<String>) {
     }
     for _ in 0..sz.docs {
         let d = r.pick(&pool).clone();
-        let e = if r.chance(1, 3) { tweak(r, &d, &KEYS[..7]) } else { r.pick(&pool).clone() };
+        let e = if r.chance(1, 3) { tweak(r, &d, &DKEYS[..12]) } else { r.pick(&pool).clone() };
         out.push(format!("p_c08\t{}\t{}\t!ok *", hex_doc(&d, r.below(4)), hex_doc(&e, r.below(4))));
     }
 }
@@ -265,7 +272,8 @@ pub fn reachable_ops(r: &mut Rng, sz: &Sizes, out: &mut Vec<String>) {
         let s0 = if below.is_empty() { r.pick(&samples) } else { *r.pick(&below) };
         out.push(format!("subset\t{}\t{}", sx(s0), sx(a)));
         out.push(format!("merger\t{}\t{}", sx(a), sx(b)));
-        out.push(format!("p_keeps\t{}\t{}\t{}\t!ok", sx(s0), sx(a), sx(b)));
+        // a lemma instance (keeps/newSample), not a property instance: compared with the model, never an oracle
+        out.push(format!("p_keeps\t{}\t{}\t{}", sx(s0), sx(a), sx(b)));
     }
 }
 
@@ -275,6 +283,8 @@ pub fn small_histories() -> Vec<Vec<String>> {
         "null", "true", "1", "\"s\"", "[]", "[null]", "[1]", "[true]", "[2,\"a\"]", "[1,null]", "{}",
         "{\"a\":1}", "{\"a\":null}", "[{\"a\":1},{}]", "[[]]", "{\"a\":[]}", "[[1],[\"a\"]]", "[{\"a\":{}}]", "[{\"a\":{}},{}]",
         "[1,\"a\",true]", "[null,\"a\"]",
+        // tuples whose compound elements are widened by a later document and then met again
+        "[{\"a\":1},1]", "[{\"a\":1,\"b\":null},1]", "[[{\"a\":1}],\"x\"]", "[[{\"a\":1},{}],\"x\"]",
     ];
     let mut out = Vec::new();
     for a in pool {
@@ -297,7 +307,7 @@ pub fn c03(r: &mut Rng, sz: &Sizes, out: &mut Vec<String>) {
         out.push(format!("p_c03\t{}\t!ok", hexes.join("\t")));
     }
     for _ in 0..sz.histories {
-        let h = rand_history(r, &KEYS[..8]);
+        let h = rand_history(r, DKEYS);
         let hexes: Vec<String> = h.iter().map(|d| hex_doc(d, r.below(4))).collect();
         out.push(format!("p_c03\t{}\t!ok", hexes.join("\t")));
     }
@@ -349,7 +359,8 @@ pub fn keeps(r: &mut Rng, sz: &Sizes, out: &mut Vec<String>) {
         let s0 = r.pick(&samples);
         let a = if r.chance(1, 2) { r.pick(&parts) } else { r.pick(&accs) };
         let b = if r.chance(2, 3) { r.pick(&samples) } else { r.pick(&parts) };
-        out.push(format!("p_keeps\t{}\t{}\t{}\t!ok", sx(s0), sx(a), sx(b)));
+        // a lemma instance (keeps/newSample), not a property instance: compared with the model, never an oracle
+        out.push(format!("p_keeps\t{}\t{}\t{}", sx(s0), sx(a), sx(b)));
     }
 }
 
@@ -363,7 +374,7 @@ pub fn c09(r: &mut Rng, sz: &Sizes, out: &mut Vec<String>) {
         }
     }
     for _ in 0..sz.histories / 2 {
-        let h = rand_history(r, &KEYS[..8]);
+        let h = rand_history(r, DKEYS);
         let hexes: Vec<String> = h.iter().map(|d| hex_doc(d, r.below(4))).collect();
         out.push(format!("p_c09\t{k}\t{}\t!ok *", hexes.join("\t")));
     }
@@ -646,7 +657,7 @@ pub fn text_corpus(r: &mut Rng, sz: &Sizes, thorough: bool) -> Vec<String> {
         malformed(r, t, &mut texts, 400);
     }
     for i in 0..sz.docs / 5 {
-        let d = rand_doc(r, i % 4, &KEYS[..7]);
+        let d = rand_doc(r, i % 4, &DKEYS[..12]);
         let t = d.render(r.below(4));
         texts.push(t.clone());
         if t.len() < 120 {
